@@ -146,7 +146,7 @@ def cover_select(behs, n, rnd, feats_fn, pool_cap=8000):
 def seed_part(tier, rnd, extra_sched=None, only_extra=False, extra_trunc=None, b0=0):
     stats, scheds, cex = [], [], []
     # (config, number of schedules to replay; None = every one)
-    plan = [("MC_C12_seed_quick.cfg", None), ("MC_C12_seed_quick3.cfg", 1000)] if tier == "quick" else \
+    plan = [("MC_C12_seed_quick.cfg", None), ("MC_C12_seed_quick3.cfg", 600)] if tier == "quick" else \
            [("MC_C12_seed_quick.cfg", None), ("MC_C12_seed_quick3.cfg", None), ("MC_C12_seed.cfg", 4000), ("MC_C12_seed4.cfg", 6000)]
     cfgs = [] if only_extra else [c for c, _ in plan]
     per_cfg = {}
@@ -279,7 +279,7 @@ def sec_part(tier, rnd, extra_beh=None, only_extra=False, setup=None):
         stats.append({"cfg": "MC_C12_sec_atrest.cfg (NoClearSecretAtRest as a plain invariant)", "mutant": True, "states": r["states"],
                       "transitions": r["transitions"],
                       "NoClearSecretAtRest_violated_in_model": any("Inv_AtRestStrict" in t for t in r["violated"])})
-    n = 60 if tier == "quick" else 400
+    n = 48 if tier == "quick" else 400
     chosen, generated = [], 0
     for cfg, all_b in per_cfg.items():
         generated += len(all_b)
